@@ -8,7 +8,7 @@ def c17_files(seed):
     p = progs.small_protos()
     return [
         # more than 64 pages between related sections: per-page state indexed modulo a word size would alias
-        progs.prog("wide", [progs.new(), progs.blob(66000, 5), progs.pc(p[0], 40, seed=seed + 5), progs.blob(66200, 6), progs.pc(p[4], 30, seed=seed + 6, guid="b"), progs.FIN]),
+        progs.prog("wide", [progs.new(), progs.blob(66000, 5), progs.pc(p[0], 40, seed=seed + 5), progs.blob(66200, 6), progs.pc(p[4], 30, seed=seed + 6, guid="b"), progs.FIN], max_depth=2),
         progs.prog("two", [progs.new(), progs.blob(300, 1), progs.pc(p[0], 120, seed=seed), progs.blob(1500, 2), progs.pc(p[4], 50, seed=seed + 1, guid="b"), progs.FIN]),
         progs.prog("three", [progs.new(), progs.pc(p[2], 400, seed=seed + 2), progs.blob(17, 3), progs.pc(p[1], 30, seed=seed + 3, guid="b"),
                              progs.image([progs.rep("visual", 900, mask=50)]), progs.blob(1003, 4), progs.FIN]),
